@@ -8,6 +8,7 @@ import (
 	"io"
 	"math/rand"
 	"net/http"
+	"net/http/httptest"
 	"net/url"
 	"reflect"
 	"strings"
@@ -42,6 +43,7 @@ type chainCase struct {
 	Wrapper  bool      `json:"handler_wrapper,omitempty"`                                 // Router.HandlerWrapper turns the reflective func(Context,*http.Request) handlers into a FastInvoker
 	SharedMW bool      `json:"middleware_through_handlers_from_a_shared_slice,omitempty"` // all but the last middleware are installed with Handlers(slice...) from a slice with spare capacity, the last one with Use; a second instance is then set up from the same slice with a Use of its own
 	Scribble bool      `json:"caller_overwrites_its_slices_after_setup,omitempty"`        // func(Context) handlers are handed over as explicit ContextInvoker values, and every slice given to Use / Group / Route / NotFound is overwritten by the caller once the call has returned (a scratch slice reused for the next declaration)
+	ActFirst bool      `json:"action_set_before_the_middleware,omitempty"`                // Action(...) is called first and the middleware is installed afterwards with Handlers(...): the action stays
 	Cleared  bool      `json:"middleware_stack_cleared_first,omitempty"`                  // two middleware are installed and then Handlers() is called without arguments (documented to clear the stack) before the real set-up
 	BadSetup bool      `json:"failed_setup_calls,omitempty"`                              // after set-up, Use(h, 42, h) and NotFound(h, "oops") are attempted and fail loudly (recovered): nothing of them may be left behind
 	Method   string    `json:"method,omitempty"`                                          // GET (default) | HEAD | POST: for HEAD no body byte is forwarded, yet a body write still counts as "written"
@@ -74,7 +76,14 @@ func genHspec(r *rand.Rand) hspec {
 		case x < 20:
 			h.Acts = append(h.Acts, act{Op: "header", Code: []int{201, 204, 404, 500, 302, 100, 102, 103, 199, 101}[r.Intn(10)]})
 		case x < 35:
-			h.Acts = append(h.Acts, act{Op: "next"})
+			switch r.Intn(12) {
+			case 0:
+				h.Acts = append(h.Acts, act{Op: "nextr"})
+			case 1:
+				h.Acts = append(h.Acts, act{Op: "mapfw"})
+			default:
+				h.Acts = append(h.Acts, act{Op: "next"})
+			}
 		case x < 37:
 			if r.Intn(3) == 0 {
 				h.Acts = append(h.Acts, act{Op: "expire"})
@@ -82,7 +91,7 @@ func genHspec(r *rand.Rand) hspec {
 				h.Acts = append(h.Acts, act{Op: "cancel"})
 			}
 		case x < 38:
-			h.Acts = append(h.Acts, act{Op: "rectx"})
+			h.Acts = append(h.Acts, act{Op: []string{"rectx", "rectx", "rectxi"}[r.Intn(3)]})
 		default:
 			h.Acts = append(h.Acts, act{Op: "panic"})
 		}
@@ -155,6 +164,7 @@ func genChainCase(r *rand.Rand) *chainCase {
 	c.BadSetup = r.Intn(6) == 0
 	c.Scribble = r.Intn(5) == 0
 	c.Cleared = r.Intn(8) == 0
+	c.ActFirst = c.Action != nil && r.Intn(4) == 0
 	c.Method = []string{"GET", "GET", "GET", "HEAD", "HEAD", "POST"}[r.Intn(6)]
 	c.Wrapper = r.Intn(4) == 0
 	if len(c.RH) >= 2 && r.Intn(5) == 0 {
@@ -221,6 +231,7 @@ type chainSim struct {
 	status    int
 	body      strings.Builder
 	cancelled bool
+	foreign   bool // a handler has mapped an independent writer as the request's http.ResponseWriter service: returned values go there
 	tr        []string
 }
 
@@ -278,20 +289,41 @@ func (s *chainSim) exec(i int, h *hspec) {
 				s.tr = append(s.tr, fmt.Sprintf("nb%d.%d", i, k))
 				s.run()
 				s.tr = append(s.tr, fmt.Sprintf("ne%d.%d", i, k))
+			case "nextr":
+				s.tr = append(s.tr, fmt.Sprintf("nb%d.%d", i, k))
+				func() {
+					defer func() {
+						if p := recover(); p != nil {
+							if cs, ok := p.(chainSentinel); !ok || cs.why != "program" {
+								panic(p)
+							}
+							s.tr = append(s.tr, fmt.Sprintf("recovered%d.%d", i, k))
+						}
+					}()
+					s.run()
+				}()
+				s.tr = append(s.tr, fmt.Sprintf("ne%d.%d", i, k))
+			case "mapfw":
+				s.foreign = true
+				s.tr = append(s.tr, fmt.Sprintf("mapfw%d.%d", i, k))
 			case "cancel":
 				s.cancelled = true
 				s.tr = append(s.tr, fmt.Sprintf("cancel%d.%d", i, k))
 			case "expire":
 				s.cancelled = true
 				s.tr = append(s.tr, fmt.Sprintf("cancelx%d.%d", i, k))
-			case "rectx":
+			case "rectx", "rectxi":
 				s.tr = append(s.tr, fmt.Sprintf("rectx%d.%d", i, k))
 			case "panic":
 				panic(chainSentinel{"program"})
 			}
 		}
 	}()
-	// the return value is rendered after the handler has returned
+	// the return value is rendered after the handler has returned - through the http.ResponseWriter the request's
+	// injector holds; if a handler has put an independent writer there, the response itself stays unwritten
+	if s.foreign {
+		return
+	}
 	switch h.Ret {
 	case "string":
 		s.write(fmt.Sprintf("r%d;", i))
@@ -383,6 +415,32 @@ func (x *chainExec) mk(i int, h *hspec) flamego.Handler {
 				x.tr = append(x.tr, fmt.Sprintf("nb%d.%d", i, k))
 				c.Next()
 				x.tr = append(x.tr, fmt.Sprintf("ne%d.%d", i, k))
+			case "nextr":
+				// a guard that contains whatever the rest of the chain throws and answers nothing itself
+				x.tr = append(x.tr, fmt.Sprintf("nb%d.%d", i, k))
+				func() {
+					defer func() {
+						if p := recover(); p != nil {
+							if cs, ok := p.(chainSentinel); !ok || cs.why != "program" {
+								panic(p)
+							}
+							x.tr = append(x.tr, fmt.Sprintf("recovered%d.%d", i, k))
+						}
+					}()
+					c.Next()
+				}()
+				x.tr = append(x.tr, fmt.Sprintf("ne%d.%d", i, k))
+			case "mapfw":
+				// a buffering middleware that puts an independent writer into the request's injector
+				c.MapTo(flamego.NewResponseWriter(c.Request().Method, httptest.NewRecorder()), (*http.ResponseWriter)(nil))
+				x.tr = append(x.tr, fmt.Sprintf("mapfw%d.%d", i, k))
+			case "rectxi":
+				// the context is installed in place (all a func(http.ResponseWriter, *http.Request) handler can do)
+				r := c.Request().Request
+				ctx2, cancel2 := gocontext.WithCancel(r.Context())
+				*r = *r.WithContext(ctx2)
+				x.cancel = cancel2
+				x.tr = append(x.tr, fmt.Sprintf("rectx%d.%d", i, k))
 			case "cancel":
 				x.cancel()
 				x.tr = append(x.tr, fmt.Sprintf("cancel%d.%d", i, k))
@@ -561,7 +619,17 @@ func judgeChain(w *core.W, c *chainCase) {
 		f.Handlers()
 		w.Count("middleware-stack-cleared-first")
 	}
-	if c.SharedMW && len(c.MW) >= 2 {
+	if c.ActFirst && c.Action != nil {
+		f.Action(x.mk(len(c.chain())-1, c.Action))
+		all := make([]flamego.Handler, 0, len(c.MW))
+		for i := range c.MW {
+			all = append(all, x.mk(idx, &c.MW[i]))
+			idx++
+		}
+		f.Handlers(all...)
+		scribble(all)
+		w.Count("action-set-before-the-middleware")
+	} else if c.SharedMW && len(c.MW) >= 2 {
 		k := len(c.MW) - 1
 		common := make([]flamego.Handler, 0, k+4)
 		for i := 0; i < k; i++ {
@@ -631,7 +699,7 @@ func judgeChain(w *core.W, c *chainCase) {
 	if !c.NotFound {
 		idx = ridx
 	}
-	if c.Action != nil {
+	if c.Action != nil && !c.ActFirst {
 		f.Action(x.mk(idx, c.Action))
 	}
 	if c.BadSetup {
@@ -700,7 +768,7 @@ func judgeChain(w *core.W, c *chainCase) {
 		eff := false
 		for _, a := range h.Acts {
 			switch a.Op {
-			case "next":
+			case "next", "nextr":
 				n++
 			case "write", "header", "cancel", "expire", "panic":
 				eff = true
@@ -709,6 +777,9 @@ func judgeChain(w *core.W, c *chainCase) {
 		for _, a := range h.Acts {
 			if a.Op == "write" && a.Via != "" {
 				w.Count("write-via:" + a.Via)
+			}
+			if a.Op == "nextr" || a.Op == "mapfw" || a.Op == "rectxi" {
+				w.Count("act:" + a.Op)
 			}
 			if a.Op == "copy" {
 				eff = true
@@ -775,7 +846,7 @@ func judgeChain(w *core.W, c *chainCase) {
 }
 
 func runC03(r *core.Run) {
-	r.Rule("random handler programs: 0-3 application middleware, 0-3 nested groups with 0-2 handlers each, 1-4 route handlers, optional action, 1/6 of requests unrouted (middleware + not-found handlers + action); every handler is a random action list (<=5) over {event, Write (directly, through a NewResponseWriter layered on the context's writer, or by another Flame instance mounted as a handler), WriteHeader, Next, cancel request context, give the request a context whose deadline has passed, replace the request context by a derived one, panic} plus a return shape {none, \"\", string, []byte, nil []byte, (int,string), (int,\"\"), error, nil error}, invoked through the fast path or reflectively. Oracle: per-request event log (handler enter/exit, Next begin/end, every call reaching a spy writer) must equal the prediction of a statement-level interpreter, plus interpreter-independent trace predicates (consecutive start order, nesting, no automatic advance after write/cancel, one status before body). non-trivial = distinct programs with >=1 Next and an effect (write/cancel/panic) in a different handler, or >=2 Next in one handler, or the nil action reached")
+	r.Rule("random handler programs: 0-3 application middleware, 0-3 nested groups with 0-2 handlers each, 1-4 route handlers, optional action, 1/6 of requests unrouted (middleware + not-found handlers + action); every handler is a random action list (<=5) over {event, Write (directly, through a NewResponseWriter layered on the context's writer, or by another Flame instance mounted as a handler), WriteHeader, Next, Next() inside a guard that recovers what the rest of the chain throws and answers nothing, put an independent writer into the request's injector, cancel request context, give the request a context whose deadline has passed, replace the request context by a derived one, panic} plus a return shape {none, \"\", string, []byte, nil []byte, (int,string), (int,\"\"), error, nil error}, invoked through the fast path or reflectively. Oracle: per-request event log (handler enter/exit, Next begin/end, every call reaching a spy writer) must equal the prediction of a statement-level interpreter, plus interpreter-independent trace predicates (consecutive start order, nesting, no automatic advance after write/cancel, one status before body). non-trivial = distinct programs with >=1 Next and an effect (write/cancel/panic) in a different handler, or >=2 Next in one handler, or the nil action reached")
 	c03Canaries(r)
 	n := r.N(60000, 6000000)
 	r.Parallel("prog", n, func(w *core.W, rng *rand.Rand, i int) {
@@ -784,7 +855,7 @@ func runC03(r *core.Run) {
 		judgeChain(w, c)
 	})
 	r.Gate("distinct_nontrivial", r.NonTrivialCount(), 2000)
-	for _, k := range []string{"nil-action-reached", "not-found-chain", "panic-unwound", "next-twice-in-one-handler", "cancel-executed", "deadline-expired-executed", "write-via:wrap", "write-via:mount", "middleware-from-a-shared-slice", "failed-setup-calls-before-serving", "caller-overwrites-its-slices", "middleware-stack-cleared-first", "chain>=64-handlers", "cancel-of-replaced-request-context", "head-request-written", "sibling-route-with-shared-handler-prefix"} {
+	for _, k := range []string{"nil-action-reached", "not-found-chain", "panic-unwound", "next-twice-in-one-handler", "cancel-executed", "deadline-expired-executed", "write-via:wrap", "write-via:mount", "middleware-from-a-shared-slice", "failed-setup-calls-before-serving", "caller-overwrites-its-slices", "middleware-stack-cleared-first", "act:nextr", "act:mapfw", "act:rectxi", "action-set-before-the-middleware", "chain>=64-handlers", "cancel-of-replaced-request-context", "head-request-written", "sibling-route-with-shared-handler-prefix"} {
 		r.GateCounter(k, 50)
 	}
 }
